@@ -1,24 +1,31 @@
 """C20 -- substitution matrices: cases, implementation driver, model terms, property oracle."""
-import os, re, tempfile
+import os, re, tempfile, shutil, pathlib
 from fractions import Fraction
 from framework import coq_bs, coq_N, coq_list
 
 ID = 'C20'
 COQ_IMPORTS = ['G_submat_index', 'C20_Model']
 GENERATORS = ['gen_submat']
+MODELLED_FUNCS = {'sugar/data/__init__.py': ['submat', '_submat_files']}
 RULE = ('every bundled matrix name (from _submat_files()) in upper, lower and random mixed case, all cells of the returned dict of '
-        'dicts compared; unknown names (near misses of bundled names, random words); generated matrix files built from abstract '
-        'lines (comment, blank, word lines with arbitrary white-space layout incl. tabs, \\x1f, CRLF/CR/\\x0c line ends, letters '
-        'of 1-3 printable characters, int rows, decimal rows, ragged rows) written to a temp file and loaded by path, plus '
-        'a mutation stream (duplicate letters, one-word rows, junk cells, exotic number syntax); abstract files with LF line ends are '
-        'rendered to text by the Coq model itself (render/afile_ok of the theorems) and length+checksum of that text are compared with '
-        'the bytes the driver wrote; non-trivial = distinct case with a branch '
-        'marker (case spelling, fnf, comment/blank inside, decimal row, short/long row, non-LF line end, multi-character letter)')
+        'dicts compared; unknown names (near misses of bundled names, random words, "", ".", README entries, relative paths); generated '
+        'matrix files built from abstract lines (comment, blank, word lines with arbitrary white-space layout incl. tabs, \\x1f, '
+        'CRLF/CR/\\x0c... line ends, letters of 1-3 printable characters, int rows incl. integers beyond 2^53, decimal rows, ragged rows) '
+        'written to a temp file and loaded by path given as str or as pathlib.Path, plus a mutation stream (duplicate letters, one-word '
+        'rows, junk cells, exotic number syntax); abstract files with LF line ends are rendered to text by the Coq model itself '
+        '(render/afile_ok of the theorems) and length+checksum of that text are compared with the bytes the driver wrote; "numfile" '
+        'cases are matrices of NUMBERS whose literals are written by the model (render_num) under LF/CRLF/CR with or without a final '
+        'terminator (render_with); HISTORY cases make several calls in one process with no state reset in between (repeats, other spellings, '
+        'str vs Path, same base name in two directories, same content under two paths, a path rewritten with other content, results '
+        'edited by the caller between calls), each call compared with the pure model on the current content; non-trivial = distinct '
+        'case with a branch marker')
 TRUSTED = ['CPython text layer (open() in text mode with universal newlines, UTF-8 decoding of ASCII), str.split/strip/splitlines/'
            'upper, int(), float(), dict insertion order: modelled for ASCII and compared on every case',
            'os.path.isfile(fname) is taken as false for names (empty working directory in the driver); the lookup of NAME.upper() in '
            '_submat_files() is modelled on the regenerated list; importlib.resources.files(...).joinpath opening that very file',
-           'modelled: sugar.data.submat and _submat_files (sugar/data/__init__.py:56-100); lru_cache is bypassed (cache_clear before each call)',
+           'modelled: sugar.data.submat and _submat_files (sugar/data/__init__.py:60-99); the driver never resets any state of sugar between '
+           'the calls of a history: submat must be a pure function of the argument and the current file content; between CASES it only '
+           'empties a functools cache on submat if one exists (none on the current code), so that every replay is self-contained',
            'tools/gens/c20.py copies the raw bytes of each bundled file into coq/gen/G_submat_<k>.v; length and checksum are recomputed '
            'in Coq and compared with the file on disk in every name case']
 ASSUMPTIONS = ['file content and names restricted to ASCII; names are not absolute paths and do not leave the working directory via ".."',
@@ -86,6 +93,8 @@ def render(case):
 
 def coq_rendered(case):
     """abstract cases with LF line ends and a final newline are rendered by the Coq model itself (run_C20f)"""
+    if case.get('_plain'):
+        return False
     nl = case.get('nl', '\n')
     if nl not in LINE_ENDS:
         nl = '\n'                        # same default as render()
@@ -126,6 +135,89 @@ def file_result(case, got):
     return got
 
 
+# ----------------------------------------------------------------------------- files of NUMBERS (literals written by the model)
+
+EOLS = {'LF': '\n', 'CRLF': '\r\n', 'CR': '\r'}
+
+
+def py_num(v):
+    """canonical literal of an int [z] or a decimal [m, k] = m / 10^k (k fraction digits, at least one integer digit)"""
+    if len(v) == 1:
+        return str(v[0])
+    m, k = v
+    ds = str(abs(m)).rjust(k + 1, '0')
+    return ('-' if m < 0 else '') + ds[:len(ds) - k] + '.' + ds[len(ds) - k:]
+
+
+def _clean_word(w):
+    return ''.join(ch for ch in w if ch not in ALL_WS and 32 < ord(ch) < 127) if isinstance(w, str) else ''
+
+
+def numfile_norm(case):
+    """(letters, rows, eol name, final) of a numfile case after sanitising (robust against shrinking)"""
+    letters = [w for w in (_clean_word(x) for x in case.get('letters', [])) if w and not w.startswith('#')] or ['A']
+    rows = []
+    for r in case.get('rows', []):
+        if not isinstance(r, dict):
+            continue
+        name = _clean_word(r.get('r'))
+        dec = bool(r.get('dec'))
+        vs = []
+        for v in r.get('v', []):
+            if isinstance(v, list) and len(v) == 2 and all(isinstance(x, int) and not isinstance(x, bool) for x in v) and 0 <= v[1] < 60:
+                vs.append([v[0], v[1]] if dec else [v[0]])
+        if name and not name.startswith('#') and vs:
+            rows.append((name, dec, vs))
+    e = case.get('eol') if case.get('eol') in EOLS else 'LF'
+    return letters, rows, e, bool(case.get('final', True))
+
+
+def numfile_text(case):
+    letters, rows, e, final = numfile_norm(case)
+    lines = [' '.join(letters)] + [' '.join([n] + [py_num(v) for v in vs]) for n, dec, vs in rows]
+    return EOLS[e].join(lines) + (EOLS[e] if final else '')
+
+
+def numfile_term(case):
+    letters, rows, e, final = numfile_norm(case)
+
+    def words(first, rest):
+        return '(AWords [] %s %s [])' % (first, coq_list(['(%s, %s)' % (coq_bs(' '), w) for w in rest]))
+
+    def num(v):
+        return '(render_num (NInt (%d)%%Z))' % v[0] if len(v) == 1 else '(render_num (NDec (%d)%%Z %d%%nat))' % (v[0], v[1])
+    als = [words(coq_bs(letters[0]), [coq_bs(w) for w in letters[1:]])]
+    als += [words(coq_bs(n), [num(v) for v in vs]) for n, dec, vs in rows]
+    return 'out (run_C20w %s %s %s)' % (e, 'true' if final else 'false', coq_list(als))
+
+
+def gen_numfile(rng):
+    n = rng.choice([1, 2, 3, 4, 6])
+    letters = _letters(rng, n)
+    letters = [l for l in letters if not l.startswith('#')] or ['A']
+    rows = []
+    for r in (letters if rng.random() < 0.7 else _letters(rng, rng.choice([1, 2, 3]))):
+        dec = rng.random() < 0.5
+        m = len(letters) + rng.choice([0, 0, 0, -1, 1])
+        vs = []
+        for _ in range(max(1, m)):
+            mant = rng.choice([0, 1, -1, 5, -5, 12, -125, 1250, rng.randint(-10 ** 6, 10 ** 6), rng.randint(-10 ** 20, 10 ** 20), 2 ** 53 + 1])
+            vs.append([mant, rng.choice([0, 1, 2, 2, 3, 5, 9, 17, 25]) if dec else 0])
+        rows.append({'r': r, 'dec': dec, 'v': vs})
+    return {'op': 'numfile', 'letters': letters, 'rows': rows, 'eol': rng.choice(['LF', 'LF', 'CRLF', 'CR']),
+            'final': rng.random() < 0.7, 'aspath': rng.random() < 0.3}
+
+
+def numfile_expected(case):
+    letters, rows, e, final = numfile_norm(case)
+    if len(set(letters)) != len(letters) or len(set(n for n, d, v in rows)) != len(rows):
+        return None
+    exp = {}
+    for n, dec, vs in rows:
+        exp[n] = {c: (float(Fraction(v[0], 10 ** v[1])) if dec else v[0]) for c, v in zip(letters, vs)}
+    return exp
+
+
 # ----------------------------------------------------------------------------- generators
 
 LETTER_POOLS = ['ARNDCQEGHILKMFPSTWYVBZX*', 'ACGTRYSWKMBDHVN', 'abcdefghijklmnop', '0123456789', '*-+.#@!$%&/()=?<>[]{}|~^_:;,']
@@ -147,7 +239,8 @@ def _letters(rng, n):
 
 
 def _int_tok(rng):
-    v = rng.choice([0, 1, -1, 2, -4, 5, 9, 10, -10, 17, 100, -123, rng.randint(-9999, 9999), rng.randint(-10 ** 12, 10 ** 12)])
+    v = rng.choice([0, 1, -1, 2, -4, 5, 9, 10, -10, 17, 100, -123, rng.randint(-9999, 9999), rng.randint(-10 ** 12, 10 ** 12),
+                    rng.choice([2 ** 53 + 1, -(2 ** 53) - 1, 10 ** 17 + 3, 2 ** 64 + 1, -(10 ** 30) - 7])])   # not representable as double
     s = str(v)
     r = rng.random()
     if r < 0.05 and v >= 0:
@@ -225,13 +318,14 @@ def gen_file(rng, big=False):
         lines.append({'k': 'w', 'w': [r] + toks, 'sep': rng_sep(), 'lead': rng.choice(['', '', ' ', '\t']), 'trail': rng.choice(['', '', ' ', '  \t'])})
     for _ in range(rng.choice([0, 0, 0, 1, 2])):
         lines.append(_comment(rng) if rng.random() < 0.5 else _blank(rng))
-    c = {'op': 'file', 'lines': lines, 'nl': rng.choice(['\n'] * 8 + LINE_ENDS), 'nofinal': rng.random() < 0.15}
+    c = {'op': 'file', 'lines': lines, 'nl': rng.choice(['\n'] * 8 + LINE_ENDS), 'nofinal': rng.random() < 0.15,
+         'aspath': rng.random() < 0.4}      # location given as pathlib.Path instead of str
     return c
 
 
 def mutate(rng, c):
     """abstract mutations that leave the modelled domain or hit its edge"""
-    c = {'op': 'file', 'lines': [dict(l) for l in c['lines']], 'nl': c['nl'], 'nofinal': c['nofinal']}
+    c = {'op': 'file', 'lines': [dict(l) for l in c['lines']], 'nl': c['nl'], 'nofinal': c['nofinal'], 'aspath': c.get('aspath', False)}
     wl = [l for l in c['lines'] if l['k'] == 'w']
     kind = rng.choice(['dupcol', 'duprow', 'oneword', 'junk', 'exotic', 'hashletter', 'noheader', 'empty', 'dotletter', 'nonascii'])
     if kind == 'dupcol' and len(wl[0]['w']) > 1:
@@ -260,6 +354,39 @@ def mutate(rng, c):
     elif kind == 'nonascii':
         return {'op': 'file', 'raw': render(c).replace(' ', ' \xe9', 1)}
     return c
+
+
+HIST_NAMES = ['nuc.4.2', 'NUC.4.2', 'Nuc.4.2', 'nUC.4.2', 'nuc.4.4', 'NUC.4.4', 'match', 'MATCH', 'nuc.4.3', 'nuc', 'readme', 'xyz', '']
+
+
+def gen_history(rng):
+    """several calls in one process: repeats, other spellings / str vs Path, other files under the same base name, the same path
+    rewritten, results edited by the caller between calls"""
+    steps, files = [], []
+    n = rng.randint(3, 8)
+    while len(steps) < n:
+        r = rng.random()
+        if r < 0.3:
+            nm = rng.choice(HIST_NAMES) if rng.random() < 0.9 else rng.choice(['blosum62', 'Blosum62', 'pam250', 'PAM250'])
+            st = {'s': 'name', 'name': nm}
+        elif r < 0.6 or not files:
+            if files and rng.random() < 0.3:
+                f = rng.choice(files)                      # the same content under another (or the same) path
+            else:
+                f = gen_file(rng)
+                if rng.random() < 0.15:
+                    f = mutate(rng, f)
+                f = {k: v for k, v in f.items() if k not in ('op', 'aspath')}
+                files.append(f)
+            st = {'s': 'file', 'slot': rng.randrange(len(SLOTS)), 'file': f, 'aspath': rng.random() < 0.4}
+        elif r < 0.8:
+            st = {'s': 'again', 'slot': rng.randrange(len(SLOTS)), 'aspath': rng.random() < 0.4}
+        else:
+            st = {'s': 'mutate', 'back': rng.choice([1, 1, 2, 3]), 'kind': rng.choice(['cell', 'cell', 'delrow', 'addrow', 'clear'])}
+        steps.append(st)
+        if st['s'] != 'mutate' and rng.random() < 0.3:
+            steps.append(dict(st))                          # the very same call again
+    return {'op': 'hist', 'steps': steps}
 
 
 def spellings(rng, name, k):
@@ -311,6 +438,10 @@ def gen_cases(rng, tier):
     for raw in ['', '\n', '#\n', 'A\n', 'A B\nA 1 2\nB 2 1', 'A B\r\nA 1 2\r\nB 2 1\r\n', ' A B\nA 1.0 2\nB 2 1\n', 'A\x0bB\nA 1\n',
                 'A B\nA 1 2\x0cB 2 1\n', 'A B\nA\x1f1\x1f2\n', 'A B\nA 1', 'A B\nA 1 2 3 x\n', 'A B\nA x\n', 'A B\nA\n', 'A A\nA 1 2\n']:
         cases.append({'op': 'file', 'raw': raw})
+    for _ in range(1500 if thorough else 260):
+        cases.append(gen_history(rng))
+    for _ in range(1500 if thorough else 200):
+        cases.append(gen_numfile(rng))
     rng.shuffle(cases)        # spread the heavy bundled cases over the coqc shards
     return cases
 
@@ -342,47 +473,170 @@ def canon_matrix(m):
     return [[r, [[c, canon_num(v)] for c, v in row.items()]] for r, row in m.items()]
 
 
+def _isolate(submat):
+    """Cases must not influence each other (a replay runs ONE case alone). submat has no cache any more, so this does nothing on the
+    current code; should a functools cache ever come back, every case starts from an empty one and the defect shows up inside
+    a history (which never resets anything between its steps) instead of leaking from one case into the next."""
+    cc = getattr(submat, 'cache_clear', None)
+    if callable(cc):
+        cc()
+
+
+def _call_name(submat, name, keep=None):
+    try:
+        m = submat(name)
+    except FileNotFoundError as e:
+        msg = str(e)
+        mark = 'available matrices: '
+        return ['fnf', msg[msg.index(mark) + len(mark):] if mark in msg else msg]
+    if keep is not None:
+        keep.append(m)
+    p = os.path.join(_data_dir(), name.upper())
+    b = open(p, 'rb').read() if os.path.isfile(p) else b''
+    return ['file', len(b), cksum(b), canon_matrix(m)]
+
+
+SLOTS = ['a/m.txt', 'b/m.txt', 'a/n.txt']      # same base name in two directories, two names in one directory
+
+
+def plan(case):
+    """normalised actions of a history case, used by the driver AND by the model term (so both see the same steps):
+    ('name', name) | ('file', slot, content, aspath, rewritten, abstract file) | ('mutate', index of the call whose result is edited, kind) | ('skip',)"""
+    acts, content, calls, fdict = [], {}, [], {}
+    for st in case.get('steps', []):
+        k = st.get('s') if isinstance(st, dict) else None
+        if k == 'name' and isinstance(st.get('name'), str):
+            calls.append(len(acts))
+            acts.append(('name', st['name']))
+        elif k == 'file' and isinstance(st.get('file'), dict):
+            slot = st.get('slot', 0) % len(SLOTS)
+            txt = render(st['file'])
+            rew = slot in content and content[slot] != txt
+            content[slot] = txt
+            calls.append(len(acts))
+            fdict[slot] = st['file']
+            acts.append(('file', slot, txt, bool(st.get('aspath')), rew, st['file']))
+        elif k == 'again' and (st.get('slot', 0) % len(SLOTS)) in content:
+            slot = st.get('slot', 0) % len(SLOTS)
+            calls.append(len(acts))
+            acts.append(('file', slot, content[slot], bool(st.get('aspath')), False, fdict[slot]))
+        elif k == 'mutate' and calls:
+            back = st.get('back', 1)
+            back = back if isinstance(back, int) and 1 <= back <= len(calls) else 1
+            acts.append(('mutate', calls[-back], st.get('kind', 'cell')))
+        else:
+            acts.append(('skip',))
+    return acts
+
+
+def _edit_result(m, kind):
+    """in-place edit of a matrix that submat returned (what a caller may do with its own dict)"""
+    if not isinstance(m, dict):
+        return
+    if kind == 'delrow' and m:
+        del m[next(iter(m))]
+    elif kind == 'addrow':
+        m['__new__'] = {'__new__': 0}
+    elif kind == 'clear':
+        m.clear()
+    else:
+        for r in m:
+            if isinstance(m[r], dict) and m[r]:
+                c = next(iter(m[r]))
+                m[r][c] = 424242
+                m[r]['__col__'] = -1
+                break
+
+
+def impl_history(case):
+    from sugar.data import submat
+    _isolate(submat)
+    cwd = os.getcwd()
+    d = tempfile.mkdtemp(prefix='C20-hist-')
+    out, objs = [], {}
+    try:
+        os.makedirs(os.path.join(d, 'cwd'))
+        for sub in ('a', 'b'):
+            os.makedirs(os.path.join(d, sub))
+        os.chdir(os.path.join(d, 'cwd'))     # empty working directory for the name steps
+        for i, a in enumerate(plan(case)):
+            if a[0] == 'name':
+                keep = []
+                try:
+                    out.append(_call_name(submat, a[1], keep))
+                except Exception as e:
+                    out.append({'e': type(e).__name__})
+                objs[i] = keep[0] if keep else None
+            elif a[0] == 'file':
+                p = os.path.join(d, SLOTS[a[1]])
+                with open(p, 'wb') as f:
+                    f.write(a[2].encode('latin-1'))
+                try:
+                    m = submat(pathlib.Path(p) if a[3] else p)
+                    objs[i] = m
+                    out.append(canon_matrix(m))
+                except Exception as e:
+                    objs[i] = None
+                    out.append({'e': type(e).__name__})
+            elif a[0] == 'mutate':
+                _edit_result(objs.get(a[1]), a[2])
+                out.append(None)
+            else:
+                out.append(None)
+    finally:
+        os.chdir(cwd)
+        shutil.rmtree(d, ignore_errors=True)
+    return out
+
+
 def impl(case):
     from sugar.data import submat
-    submat.cache_clear()
+    if case['op'] == 'hist':
+        return impl_history(case)
+    _isolate(submat)
     if case['op'] == 'name':
         name = case['name']
         cwd = os.getcwd()
         d = tempfile.mkdtemp(prefix='C20-cwd-')
         try:
-            os.chdir(d)            # an empty working directory: exists(name) is False for every bare name
-            try:
-                m = submat(name)
-            except FileNotFoundError as e:
-                msg = str(e)
-                mark = 'available matrices: '
-                return ['fnf', msg[msg.index(mark) + len(mark):] if mark in msg else msg]
+            os.chdir(d)            # an empty working directory: isfile(name) is False for every relative name
+            return _call_name(submat, name)
         finally:
             os.chdir(cwd)
             os.rmdir(d)
-        p = os.path.join(_data_dir(), name.upper())
-        b = open(p, 'rb').read() if os.path.isfile(p) else b''
-        return ['file', len(b), cksum(b), canon_matrix(m)]
-    content = render(case)
+    content = numfile_text(case) if case['op'] == 'numfile' else render(case)
     fd, p = tempfile.mkstemp(prefix='C20-file-')
+    arg = pathlib.Path(p) if case.get('aspath') else p
     try:
         with os.fdopen(fd, 'wb') as f:
             f.write(content.encode('latin-1'))
-        if coq_rendered(case):
+        if case['op'] == 'numfile' or coq_rendered(case):
             b = content.encode('latin-1')
             try:
-                m = canon_matrix(submat(p))
+                m = canon_matrix(submat(arg))
             except Exception as e:
                 m = {'e': type(e).__name__}
-            return [afile_ok_py(case), len(b), cksum(b), m]
-        return canon_matrix(submat(p))
+            return [True if case['op'] == 'numfile' else afile_ok_py(case), len(b), cksum(b), m]
+        return canon_matrix(submat(arg))
     finally:
         os.remove(p)
 
 
 def model_term(case):
+    if case['op'] == 'hist':
+        ts = []
+        for a in plan(case):
+            if a[0] == 'name':
+                ts.append('run_C20 0%%N %s []' % coq_bs(a[1]))
+            elif a[0] == 'file':
+                ts.append('run_C20 1%%N [] %s' % coq_bs(a[2]))
+            else:
+                ts.append('VNone')
+        return 'out (hist_C20 %s)' % coq_list(ts)
     if case['op'] == 'name':
         return 'out (run_C20 0%%N %s [])' % coq_bs(case['name'])
+    if case['op'] == 'numfile':
+        return numfile_term(case)
     if coq_rendered(case):
         return 'out (run_C20f %s)' % coq_list([coq_aline(l) for l in case.get('lines', []) if isinstance(l, dict)])
     return 'out (run_C20 1%%N [] %s)' % coq_bs(render(case))
@@ -417,6 +671,9 @@ def _norm_model(v):
 
 def agree(case, implval, modelval):
     try:
+        if case['op'] == 'hist':
+            return isinstance(implval, list) and len(implval) == len(modelval) and \
+                all(i == (None if m is None else _norm_model(m)) for i, m in zip(implval, modelval))
         return implval == _norm_model(modelval)
     except Exception:
         return False
@@ -504,7 +761,33 @@ def read_bundled(name):
     return expected_from_words(wl)
 
 
+def spec_history(case, got):
+    if not isinstance(got, list):
+        return 'history raised %r' % (got,)
+    acts = plan(case)
+    if len(acts) != len(got):
+        return 'driver returned %d results for %d steps' % (len(got), len(acts))
+    for i, (a, g) in enumerate(zip(acts, got)):
+        why = None
+        if a[0] == 'name':
+            why = spec({'op': 'name', 'name': a[1]}, g)
+        elif a[0] == 'file':
+            why = spec(dict(a[5], op='file', _plain=True), g)
+        if why:
+            return 'step %d (%s%s): %s' % (i, a[0], ' ' + repr(a[1]) if a[0] == 'name' else ' slot %s' % SLOTS[a[1]] if a[0] == 'file' else '', why)
+    return None
+
+
 def spec(case, got):
+    if case['op'] == 'hist':
+        return spec_history(case, got)
+    if case['op'] == 'numfile':
+        exp = numfile_expected(case)
+        if exp is None:
+            return None
+        if not (isinstance(got, list) and len(got) == 4):
+            return 'driver value %r' % (got,)
+        return compare_matrix(got[3], exp)
     if case['op'] == 'name':
         name = case['name']
         names = _bundled()
@@ -558,6 +841,26 @@ def spec(case, got):
 
 def nontrivial(case, got):
     marks = []
+    if case['op'] == 'hist':
+        acts = plan(case)
+        seen = set()
+        for a in acts:
+            if a[0] == 'mutate':
+                marks.append('hist:result-edited')
+            if a[0] == 'file':
+                marks.append('hist:path-arg' if a[3] else 'hist:str-arg')
+                if a[4]:
+                    marks.append('hist:rewritten-path')
+            key = a[:4] if a[0] == 'file' else a
+            if a[0] in ('name', 'file') and key in seen:
+                marks.append('hist:repeat')
+            seen.add(key)
+        return sorted(set(marks)) or ['hist']
+    if case['op'] == 'numfile':
+        letters, rows, e, final = numfile_norm(case)
+        return sorted(set(['num:' + e, 'num:final' if final else 'num:no-final-terminator'] +
+                          ['num:decimal-row' if d else 'num:int-row' for n, d, v in rows] +
+                          (['path-arg'] if case.get('aspath') else [])))
     if case['op'] == 'name':
         n = case['name']
         if isinstance(got, list) and got and got[0] == 'fnf':
@@ -590,6 +893,8 @@ def nontrivial(case, got):
             marks.append('multichar-letter')
         if any('\t' in str(l.get('sep')) or '\x1f' in str(l.get('sep')) for l in wl):
             marks.append('tab-sep')
+    if case.get('aspath'):
+        marks.append('path-arg')
     if case.get('nl', '\n') != '\n':
         marks.append('nl=' + repr(case.get('nl')))
     if case.get('nofinal'):
@@ -600,6 +905,12 @@ def nontrivial(case, got):
 
 
 def histkey(case, got):
+    if case['op'] == 'hist':
+        acts = plan(case)
+        return ['op=hist', 'hist:calls=%d' % len([a for a in acts if a[0] in ('name', 'file')])] + \
+            sorted(set('hist:' + a[0] for a in acts))
+    if case['op'] == 'numfile':
+        return ['op=numfile', 'numfile:' + numfile_norm(case)[2]]
     if case['op'] == 'name':
         kind = 'fnf' if (isinstance(got, list) and got and got[0] == 'fnf') else 'bundled' if isinstance(got, list) else 'error'
         return ['op=name', 'name:' + kind]
@@ -620,24 +931,46 @@ def histkey(case, got):
 
 
 def python_snippet(case):
+    if case['op'] == 'hist':
+        lines = ['import os, tempfile, pathlib', 'from sugar.data import submat',
+                 'd = tempfile.mkdtemp(); os.makedirs(d + "/a"); os.makedirs(d + "/b"); os.makedirs(d + "/cwd"); os.chdir(d + "/cwd"); r = {}']
+        for i, a in enumerate(plan(case)):
+            if a[0] == 'name':
+                lines.append('try:\n    r[%d] = submat(%r); print(%d, r[%d])\nexcept Exception as e:\n    print(%d, type(e).__name__, str(e)[:80])' % (i, a[1], i, i, i))
+            elif a[0] == 'file':
+                arg = 'pathlib.Path(d + "/%s")' % SLOTS[a[1]] if a[3] else 'd + "/%s"' % SLOTS[a[1]]
+                lines.append('open(d + "/%s", "wb").write(%r)' % (SLOTS[a[1]], a[2].encode('latin-1')))
+                lines.append('try:\n    r[%d] = submat(%s); print(%d, r[%d])\nexcept Exception as e:\n    print(%d, type(e).__name__, str(e)[:80])' % (i, arg, i, i, i))
+            elif a[0] == 'mutate':
+                lines.append('m = r.get(%d)  # the caller edits its own result (%s)\nif isinstance(m, dict) and m:\n    k = next(iter(m)); m[k][next(iter(m[k]))] = 424242' % (a[1], a[2]))
+        return '\n'.join(lines)
     if case['op'] == 'name':
         return 'from sugar.data import submat; print(submat(%r))' % case['name']
-    return ("import tempfile, os; from sugar.data import submat\n"
+    return ("import tempfile, os, pathlib; from sugar.data import submat\n"
             "f = tempfile.NamedTemporaryFile('wb', delete=False); f.write(%r); f.close()\n"
-            "try:\n    print(submat(f.name))\nfinally:\n    os.remove(f.name)") % render(case).encode('latin-1')
+            "try:\n    print(submat(%s))\nfinally:\n    os.remove(f.name)") % ((numfile_text(case) if case['op'] == 'numfile' else render(case)).encode('latin-1'),
+                                                                                  'pathlib.Path(f.name)' if case.get('aspath') else 'f.name')
 
 
 LEVEL_TEXT = ('Machine-checked Coq theorems over the regenerated raw bytes of all bundled matrix files (complete enumeration, re-checked '
               'against /repo on every run): the model parser returns for every data line, row letter and column index exactly the j-th '
               'number word of that line under the j-th header letter, loses or invents no row or column, and every bundled matrix is '
-              'symmetric wherever both entries exist; name resolution is case-insensitive on the regenerated file list and an unknown name '
-              'yields the FileNotFoundError text containing every available name. Unbounded theorems: the same positional reading holds '
-              'for EVERY file content in the domain (wf_content), and for files rendered from an abstract layout (comments, blank lines, '
-              'arbitrary in-line white space) the lines and words seen by the parser are the abstract ones. The hand-written model of submat() (text layer, line '
-              'filter, split/zip/convert, dict building, name lookup) is tied to sugar by differential testing of all cells of all bundled '
-              'files under several spellings and of generated files in the same layout on every run.')
+              'symmetric wherever both entries exist; name resolution is case-insensitive on the regenerated file list, an unknown name '
+              'yields the FileNotFoundError text containing every available name, and the composed function on names never ends in '
+              'ValueError. Unbounded theorems: the same positional reading holds for EVERY file content in the domain (wf_content); for files '
+              'rendered from an abstract layout (comments, blank lines, arbitrary in-line white space; LF, CRLF or CR line ends, with or '
+              'without a terminator after the last line) the lines and words seen by the parser are the abstract ones; integers and decimal '
+              'literals m/10^k written canonically are read back as exactly (m, k), so a rendered matrix of numbers loads as these numbers. '
+              'The hand-written model of submat() (text layer, line filter, split/zip/convert, dict building, name lookup) is tied to sugar '
+              'by differential testing of all cells of all bundled files under several spellings, of generated files (str and Path '
+              'arguments), of files whose text and number literals are produced by the model itself, and of multi-call histories.')
 LEVEL_NOTE = ('Trusted: Coq kernel/vm_compute, tools/gens/c20.py (byte copy; length+checksum re-verified in Coq against the disk file), the '
-              'correspondence harness, CPython str/int/float/open/os.path.exists/importlib.resources. Modelled rather than verified: '
+              'correspondence harness, CPython str/int/float/open/os.path.isfile/importlib.resources. Modelled rather than verified: '
               'submat() and _submat_files(); ASCII only; cells in plain integer/decimal syntax; float cells compared as exact decimal '
-              'literals converted by Fraction. All theorems closed under the global context (no axioms).')
+              'literals converted by Fraction (CPython float() itself is trusted). Tested only, not proved: other line boundaries of '
+              'str.splitlines (\\x0b \\x0c \\x1c-\\x1e) in rendered files, non-canonical number spellings (+5, 007, .5), call-history '
+              'independence (histories: repeats, rewritten paths, results edited by the caller; fixed defect cache_aliasing, commit 0feda3c, '
+              'witnesses in corpus/C20/histories.json). Measured reach: every statement of submat and _submat_files is executed in the quick tier '
+              'except the two def lines (61, 66), which run at import time before the measurement starts. '
+              'All theorems closed under the global context (no axioms).')
 TECHNIQUE = 'Coq proof (finite enumeration by vm_compute over regenerated data + structural lemmas) with differential model/code correspondence'
